@@ -447,9 +447,37 @@ class LoopMixin:
             self.exec_block(st.orelse)
 
     # ------------------------------------------------------------------ for
+    def range_count(self, r):
+        """number of elements of range(lo, hi, step) (step a positive constant) as a Lin; forks on emptiness"""
+        c = getattr(r, '_count', None)
+        if c is not None:
+            return c
+        lo, hi = Lin.of(r.lo), Lin.of(r.hi)
+        span = hi - lo
+        if not self.decide_ge0(span - 1):
+            c = Lin.const(0)
+        elif r.step == 1:
+            c = span
+        else:
+            s = self.fresh('count')
+            self.store.declare(s, 1, None, info=f'len(range({lo}, {hi}, {r.step}))')
+            cs = Lin.sym(s)
+            # step*(c-1) <= span-1  and  span <= step*c
+            self.store.assume_ge0(span - 1 - (cs - 1).scale(r.step))
+            self.store.assume_ge0(cs.scale(r.step) - span)
+            c = cs
+        r._count = c
+        return c
+
     def iter_element(self, itv, node):
         """-> (generic element, length Lin|None) of an iterable abstract value."""
         itv = self.resolve(itv)
+        if isinstance(itv, RangeV) and itv.step != 1:
+            c = self.range_count(itv)
+            k = self.fresh('k')
+            self.store.declare(k, 0, None, info='position in a stepped range')
+            self.store.assume_ge0(c - 1 - Lin.sym(k))
+            return IntV(Lin.of(itv.lo) + Lin.sym(k).scale(itv.step)), c
         if isinstance(itv, RangeV):
             lo, hi = Lin.of(itv.lo), Lin.of(itv.hi)
             s = self.fresh('i')
@@ -468,6 +496,7 @@ class LoopMixin:
             if itv.kind == 'bytes':
                 s = self.fresh('byte')
                 self.store.declare(s, 0, 255)
+                self.origin[s] = ('byte-of', itv, None)
                 return IntV(Lin.sym(s), tags=value_tags(itv)), itv.length()
             cs = None
             if len(itv.segs) == 1 and isinstance(itv.segs[0], Sl):
@@ -485,6 +514,10 @@ class LoopMixin:
                 return SymV(self.fresh('key'), 'key', origin=itv), Lin.const(len(itv.value))
             return SymV(self.fresh('elem'), 'elem', origin=itv), Lin.const(len(itv.value))
         if isinstance(itv, IterV):
+            fresh = getattr(itv, 'fresh', None)
+            if fresh is not None and self.an.mode == 'unroll':
+                # unrolled iterations are different elements of the collection
+                return fresh(self), itv.len
             return itv.elem, itv.len
         if isinstance(itv, (ObjV, FileV, SymV, UnkV)):
             return SymV(self.fresh('elem'), 'elem', origin=itv, tags=value_tags(itv)), None
@@ -601,7 +634,9 @@ class LoopMixin:
                     self.event('for-skip', st, after=i)
                     self.exec_block(st.orelse)
                     return
-            if isinstance(itv, RangeV) and prev is not None and isinstance(elem, IntV):
+            if isinstance(itv, RangeV) and itv.step != 1:
+                elem = IntV(Lin.of(itv.lo) + Lin.const(i * itv.step))     # the i-th element, exactly
+            elif isinstance(itv, RangeV) and prev is not None and isinstance(elem, IntV):
                 self.store.assume_ge0(elem.lin - prev.lin - 1)
             prev = elem
             self.assign(st.target, elem, st)
